@@ -152,8 +152,13 @@ class ListMonitor:
             self.frame(rec, model, pre, kind, allowed_new=True)
             return
         if st.op in ("insert", "append", "setitem", "delitem", "remove", "clear"):
-            if st.op in ("insert", "append", "setitem") and x_uuid in pre["uuids"] and kind in objops.CONTAIN:
-                return  # member moved within its own list: outside the stated domain
+            if st.op in ("insert", "append") and x_uuid in pre["uuids"] and getattr(st.rel.acc, "unique", False):
+                # a uniqueness-enforcing relation must reject a member that is already present,
+                # whichever list object the caller uses
+                self.find(rec, f"unique-accepts-duplicate|{kind}|{st.op}", f"{st.op} of a member that is already in the unique relation was accepted")
+                return
+            if st.op in ("insert", "append", "setitem") and x_uuid in pre["uuids"]:
+                return  # an object that is already a member (move within the list / set-like link list): outside the stated domain
             want = py_apply(pre["uuids"], st.op, st.args, x_uuid)
             try:
                 fresh = ol.uuids(st.rel.get())
@@ -165,7 +170,7 @@ class ListMonitor:
                           f"{st.op}({i if i is not None else ''}) on {n} elements: fresh view {short(fresh)} but a Python list gives {short(want)}")
             self.frame(rec, model, pre, kind, allowed_new=False)
             # correspondence with the Lean model for containment inserts
-            if st.op == "insert" and kind in objops.CONTAIN:
+            if st.op == "insert" and st.rel.contain:
                 owner_el = st.rel.owner._element
                 kids_after = [id(c) for c in owner_el]
                 moved = [k for k in kids_after if k not in pre["kids"]]
@@ -217,7 +222,7 @@ class ListMonitor:
         bad = []
         for nid in gone:
             sig = snap0[nid][3]
-            if kind in objops.CONTAIN:
+            if st.rel.contain:
                 ok = under(nid, explicit_roots, snap0) or (refs(sig) & gone_ids)
             else:  # link-element / attribute-link lists own their link elements below the owner
                 ok = under(nid, {owner}, snap0) or (refs(sig) & gone_ids)
@@ -318,17 +323,69 @@ class ReloadMonitor:
                               {"kind": "history", "model": self.key, "hist": self.hist_id, "failure": "reloaded-view"})
 
 
+def unique_scenarios(ctx: Ctx, out: Outcome, key: str, limit: int):
+    """Every uniqueness-enforcing link relation found in the model: the same object offered twice, through a
+    second (outdated) list object and inside one assigned sequence, must be rejected and change nothing."""
+    model = ol.load(ctx, key)
+    rng = random.Random(f"c08u:{ctx.seed}:{key}")
+    rels = [r for r in objops.discover(model, rng, max_objs=ctx.pick(300, 900)) if getattr(r.acc, "unique", False)]
+    seen_acc = set()
+    n = 0
+    for r in rels:
+        if id(r.acc) in seen_acc and rng.random() < 0.7:
+            continue
+        seen_acc.add(id(r.acc))
+        try:
+            h1, h2 = r.get(), r.get()
+        except Exception:  # noqa: BLE001
+            continue
+        cands = [c for c in objops.candidates_for(model, r, rng, 12) if c not in h1]
+        if not cands:
+            continue
+        x = rng.choice(cands)
+        try:
+            h1.append(x)
+        except Exception:  # noqa: BLE001
+            continue
+        n += 1
+        out.case(("unique", key, r.key()), {"model": key, "relation": r.key(), "object": getattr(x, "uuid", None)})
+        out.hit("unique.scenario")
+        before = ol.frag_hashes(model._loader)
+        for label, fn in (("second-handle-append", lambda: h2.append(x)),
+                          ("assign-sequence-with-duplicate", lambda: setattr(r.owner, r.attr, [*r.get(), x]))):
+            try:
+                fn()
+                accepted = True
+            except Exception:  # noqa: BLE001
+                accepted = False
+            fresh = ol.uuids(r.get())
+            if accepted and fresh.count(getattr(x, "uuid", None)) != 1:
+                pass
+            links = [c for c in r.owner._element if isinstance(c.tag, str) and ("#" + x.uuid) in " ".join(c.attrib.values())]
+            if len(links) > 1:
+                out.find(f"unique-accepts-duplicate|{r.kind}|{label}", f"{key}: {r.key()}: {label} stored {len(links)} link elements to {x.uuid}",
+                         {"kind": "unique", "model": key, "relation": r.key(), "failure": f"unique-accepts-duplicate|{r.kind}|{label}"})
+            elif not accepted and ol.frag_hashes(model._loader) != before:
+                out.find(f"rejected-op-changed-model|{r.kind}|{label}", f"{key}: {r.key()}: {label} was rejected but the model changed",
+                         {"kind": "unique", "model": key, "relation": r.key(), "failure": f"rejected-op-changed-model|{r.kind}|{label}"})
+        if n >= limit:
+            break
+
+
 def run(ctx: Ctx) -> Outcome:
     import os
 
     out = Outcome(rule=RULE)
     objops.SAME_RESOURCE_MOVES = True
+    objops.PREFER_INTERLEAVED = 0.4
     req: list = []
     impl: list = []
     meta: list = []
     for key, nh, ns in (THOROUGH if ctx.thorough else QUICK):
         for h in range(nh):
             S.run_history(ctx, out, key, ns, [ListMonitor(out, ctx, req, impl, meta), ReloadMonitor(out, ctx)], weights=W, hist_id=h)
+    for key in (["t52", "t50", "write"] if ctx.thorough else ["t50"]):
+        unique_scenarios(ctx, out, key, ctx.pick(6, 30))
     # model-only sweep: every index on synthetic child lists (also covered by the theorems)
     rng = random.Random(f"c08:{ctx.seed}")
     for _ in range(ctx.pick(300, 3000)):
@@ -355,6 +412,8 @@ def replay(ctx: Ctx, case: dict):
     plan = {k: ns for k, _, ns in THOROUGH + QUICK}
     S.run_history(ctx, out, case["model"], max(plan.get(case["model"], 40), case.get("step", 0) + 1),
                   [ListMonitor(out, ctx, [], [], []), ReloadMonitor(out, ctx)], weights=W, hist_id=case["hist"])
+    if case.get("kind") == "unique":
+        unique_scenarios(ctx, out, case["model"], 30)
     for f in out.findings:
         if f.signature == case.get("failure"):
             return f.what
